@@ -29,10 +29,25 @@
    [C15_full_statement], with or without diagnostics; C15_new_doc_stream and
    C15_lexical_reported_everywhere are the older versions that carry [decls_names_b] as a
    hypothesis).
-   NOT proved for arbitrary documents: part (b) of
-   [C15_full_statement], the classification of identifiers by binding kind (proved for every valid
-   program: C15_valid); it is stated on the
-   model and validated by oracle only (the former refutation, C15_full_statement_refuted on the
+   PROVED for every DOCUMENT WITHOUT DIAGNOSTICS (end of this file; Proofs/CompleteFeatures.v):
+     C15_full_clean    [C15_full_statement] - both parts, (b) = the classification of identifiers by syntactic role
+                       ([doc_occs]) - for every document of AnalyzedSource::new whose errors() is empty and none of
+                       whose tokens carries a lexical error.  The additional lexical hypothesis is what the
+                       COMPLETENESS of the front end needs (Proofs/CompleteFront.v [front_end_complete]: lexical
+                       errors - integer literal above u32, `0x` without digits, unterminated character literal -
+                       are attached to tokens and never published as diagnostics, and a token vector with an
+                       out-of-range literal is not derivable in the grammar; C15_lexical_error_unreported_ex).
+     C15_valid_clean   C15_valid for every such document: each identifier occurrence of the document's tree
+                       ([program_roles]) is reported with the kind of the entity it is BOUND to and the declaration
+                       modifier exactly on the declaring occurrence, and nothing else is reported at its position
+     C15_occs_roles    the link between the two vocabularies, for every well-typed tree: an occurrence of [doc_occs]
+                       is an occurrence of [program_roles], and the class its role prescribes is the class of the
+                       entity it is bound to
+   NOT proved: [C15_full_statement] literally, i.e. WITHOUT the lexical hypothesis.  Part (a) holds without any
+   hypothesis (C15_lexical_reported_everywhere_total); part (b) on a document with an unpublished lexical error is
+   outside the reach of the completeness theorem.  No counterexample is known: the judge (command 50, spec flag)
+   decides both parts true on the three kinds of such documents, and on every generated well-typed program in
+   agreement with the independent python oracle.  (The former refutation, C15_full_statement_refuted on the
    witness `type t = int; proc p(t: t) { } proc main() { }`, is gone with the repair b909979: the
    witness now evaluates to the demanded stream, C15_example_type_use / _int_hidden / _trailing). *)
 From Coq Require Import Sorting.Sorted.
@@ -192,7 +207,8 @@ Print Assumptions C15_valid.
    the declaration modifier, type position, variable position resolved in the procedure's own local
    table, callee) with that class.  With C15_coincide / C15_increasing / C15_lexical_class (nothing
    else is reported, in text order) this pins the whole answer.
-   NOT PROVED as a whole: (a) is C15_lexical_reported_everywhere_total; (b) is validated only - the check
+   PROVED (C15_full_clean, end of this file) under the additional hypothesis that no token carries a lexical
+   error - those are not part of errors().  (a) alone is C15_lexical_reported_everywhere_total.  The check also
    decides both parts for every generated well-typed program (judge command 50), in agreement with
    the independent python oracle, and found no counterexample on the repaired code. *)
 Definition C15_full_statement : Prop :=
@@ -256,3 +272,67 @@ Example C15_example_trailing :
   stream_of [112; 114; 111; 99; 32; 109; 97; 105; 110; 40; 41; 32; 123; 32; 125; 32; 47; 47; 32; 116; 97; 105; 108]%N
   = Some (true, Some [ (0, 0, 4, 1, 0); (0, 5, 4, 4, 1); (0, 16, 7, 0, 0) ])%N.
 Proof. vm_compute. reflexivity. Qed.
+
+(* ---- the classification part, PROVED for every document without diagnostics ----
+   By the completeness of the front end (Proofs/CompleteFront.v) a document of AnalyzedSource::new whose
+   errors() is empty and none of whose tokens carries a lexical error is the document of a layout of a
+   well-typed abstract program; C15_valid applies to it, and in a well-typed tree the class the syntactic
+   role of an occurrence prescribes is the class of the entity it is bound to (Proofs/CompleteFeatures.v). *)
+From Spl Require Import Proofs.CompleteFront Proofs.CompleteFeatures.
+
+Theorem C15_valid_clean : forall (t : text) (d : doc), Nav.clean_doc t d ->
+  exists data, semantic_tokens d = SOk data /\
+    forall owner k x sc dcl, In (owner, ((k, x, sc), dcl)) (program_roles (d_ast d)) ->
+    forall tok, nth_error (d_toks d) k = Some tok ->
+    exists e, HoverProofs.binding d owner sc x = Some e /\
+      let a := tok_view t (tok, (kind_of e, mod_of dcl)) in
+      In a (decode data) /\ forall b, In b (decode data) -> at_pos b = at_pos a -> b = a.
+Proof. exact semtok_valid_clean. Qed.
+Print Assumptions C15_valid_clean.
+
+Theorem C15_occs_roles : forall d : doc,
+  well_typed (d_ast d) (d_table d) ->
+  forall j c, In (j, Some c) (doc_occs d) ->
+  exists owner x sc dcl, In (owner, ((j, x, sc), dcl)) (program_roles (d_ast d)) /\
+    forall e, HoverProofs.binding d owner sc x = Some e -> c = (kind_of e, mod_of dcl).
+Proof. exact doc_occs_roles. Qed.
+Print Assumptions C15_occs_roles.
+
+Theorem C15_full_clean : forall t d data,
+  new_doc t = Done d -> doc_errors d = Done [] ->
+  forallb (fun tok => match terr tok with [] => true | _ => false end) (d_toks d) = true ->
+  semantic_tokens d = SOk data ->
+  (forall j k c, nth_error (d_toks d) j = Some k -> map_class (tk k) = Some c ->
+                 In (tok_view (d_text d) (k, c)) (decode data)) /\
+  (forall j k c, In (j, Some c) (doc_occs d) -> nth_error (d_toks d) j = Some k ->
+                 In (tok_view (d_text d) (k, c)) (decode data)).
+Proof. exact semtok_full_clean. Qed.
+Print Assumptions C15_full_clean.
+
+(* [C15_full_clean] is [C15_full_statement] with the lexical hypothesis added *)
+Example C15_full_clean_is_full_statement :
+  (forall t d, new_doc t = Done d -> doc_errors d = Done [] ->
+               forallb (fun tok => match terr tok with [] => true | _ => false end) (d_toks d) = true) ->
+  C15_full_statement.
+Proof. intros H t d data Hn He Hs. exact (C15_full_clean t d data Hn He (H t d Hn He) Hs). Qed.
+
+(* non-vacuity: the document of C15_example_type_use - `type t = int; proc p(t: t) { t := 1; }` LF `proc main() {}` -
+   satisfies the three hypotheses and has 7 classified identifier occurrences; and the lexical hypothesis is not
+   implied by the other two: `proc main() { var x: int; x := 99999999999; }` has an empty errors() although
+   its literal token carries InvalidIntLit *)
+Example C15_full_clean_ex :
+  match new_doc [116; 121; 112; 101; 32; 116; 32; 61; 32; 105; 110; 116; 59; 32; 112; 114; 111; 99; 32; 112; 40; 116; 58; 32; 116; 41; 32; 123; 32; 116; 32; 58; 61; 32; 49; 59; 32; 125; 10; 112; 114; 111; 99; 32; 109; 97; 105; 110; 40; 41; 32; 123; 125]%N with
+  | Done d => doc_errors d = Done [] /\
+              forallb (fun tok => match terr tok with [] => true | _ => false end) (d_toks d) = true /\
+              length (doc_occs d) = 7%nat
+  | _ => False
+  end.
+Proof. vm_compute. repeat split; reflexivity. Qed.
+
+Example C15_lexical_error_unreported_ex :
+  match new_doc [112; 114; 111; 99; 32; 109; 97; 105; 110; 40; 41; 32; 123; 32; 118; 97; 114; 32; 120; 58; 32; 105; 110; 116; 59; 32; 120; 32; 58; 61; 32; 57; 57; 57; 57; 57; 57; 57; 57; 57; 57; 57; 59; 32; 125]%N with
+  | Done d => doc_errors d = Done [] /\
+              forallb (fun tok => match terr tok with [] => true | _ => false end) (d_toks d) = false
+  | _ => False
+  end.
+Proof. vm_compute. split; reflexivity. Qed.
